@@ -163,7 +163,7 @@ def run(chk):
             # further noise) stay at their defaults there
             p.update(cid_switch=False, migrate_at=None, own_noise=False, ts_equal=False)
         return p
-    jobs = [(b, rng.randrange(1 << 30), params(b), rng.choice([[], [], ["-m"], ["-m", "443:9443"]])) for b in behs]
+    jobs = [(b, rng.randrange(1 << 30), params(b), rng.choice([[], [], ["-m"], ["-m", "443:9443"], [], ["-d", "INFO"], ["-d", "DEBUG"]])) for b in behs]
     # greased QUIC bit (RFC 9287): the client sends the transport parameter, the server clears the bit in most of its packets, the tool runs with -g
     for j in range(0, len(jobs), 7):
         b, sd, pm, op = jobs[j]
